@@ -93,6 +93,7 @@ class Gen:
         self.atlas = atlas
         self.cited = []     # party names of full citations written so far
         self.last_parties = None
+        self.force_paren = False   # every full citation gets a "(court year)" parenthetical
         global _COURT_PREFIXES
         if _COURT_PREFIXES is None:
             _COURT_PREFIXES = ambiguous_court_prefixes()
@@ -218,8 +219,8 @@ class Gen:
             s += f", {self.core(self.pick(self.full))}"
         if r.random() < 0.4:
             s += f", {self.pin()}"
-        if r.random() < 0.6:
-            court = self.pick(self.courts if r.random() < 0.4 else COURTS)
+        if r.random() < 0.6 or self.force_paren:
+            court = self.pick(self.courts if (r.random() < 0.4 or self.force_paren) else COURTS)
             s += f" ({court + ' ' if court else ''}{self.year()})"
         if r.random() < 0.2:
             s += f" ({self.pick(PARENS)})"
